@@ -7,6 +7,7 @@ use super::{
     tracker::{Type, TypeTracker},
     DecodeError,
 };
+use std::convert::TryFrom;
 use std::{error, fmt, result, slice};
 
 use crate::grammar::CoreInstructionTable as GInstTable;
@@ -344,7 +345,11 @@ impl<'c, 'd> Parser<'c, 'd> {
         let mut operands = vec![];
 
         let number = self.decoder.bit32()?;
-        if let Some(g) = GInstTable::lookup_opcode(number as u16) {
+        // The opcode is a full 32-bit literal; only its exact value may name an opcode.
+        if let Some(g) = u16::try_from(number)
+            .ok()
+            .and_then(GInstTable::lookup_opcode)
+        {
             // TODO: check whether this opcode is allowed here.
             operands.push(dr::Operand::LiteralSpecConstantOpInteger(g.opcode));
 
